@@ -1068,10 +1068,12 @@ func TestGocvReplay(t *testing.T) {
 	replayers["(*kmipclient.Client).Request"] = replayers["scenario:C12"]
 	replayers["(*kmipclient.Client).BatchOpt"] = replayers["scenario:C12"]
 	// key accessors (C14): every decodable shape with optional parts missing
-	replayers["scenario:C14"] = &Replayer{PkgDir: ".", Oracle: "SymmetricKey, SecretData, PublicKey, PrivateKey with every key format type x {no key value, wrapped only, plain without material, plain with each single material kind present}: every accessor returns normally (value or error), never panics",
+	replayers["scenario:C14"] = &Replayer{PkgDir: ".", Oracle: "SymmetricKey, SecretData, PublicKey, PrivateKey with every key format type x {no key value, wrapped only, plain without material, plain with each single material kind present, transparent RSA private key with every subset of its 7 optional parts}: every accessor returns normally (value or error), never panics",
 		Template: `package kmip
 
 import (
+	"fmt"
+	"math/big"
 	"testing"
 )
 
@@ -1090,6 +1092,16 @@ func TestGocvReplay(t *testing.T) {
 		"ecdsapub":  {TransparentECDSAPublicKey: &TransparentECDSAPublicKey{}},
 		"ecpriv":  {TransparentECPrivateKey: &TransparentECPrivateKey{RecommendedCurve: RecommendedCurveP_256}},
 		"ecpub":   {TransparentECPublicKey: &TransparentECPublicKey{RecommendedCurve: RecommendedCurveP_256, QString: raw}},
+	}
+	// every subset of the optional parts of a transparent RSA private key
+	for mask := 1; mask < 128; mask++ {
+		k := &TransparentRSAPrivateKey{Modulus: *big.NewInt(3233)}
+		for b, f := range []**big.Int{&k.PrivateExponent, &k.PublicExponent, &k.P, &k.Q, &k.PrimeExponentP, &k.PrimeExponentQ, &k.CRTCoefficient} {
+			if mask&(1<<b) != 0 {
+				*f = big.NewInt([]int64{413, 17, 61, 53, 53, 49, 38}[b])
+			}
+		}
+		mats[fmt.Sprintf("rsapriv-parts-%07b", mask)] = KeyMaterial{TransparentRSAPrivateKey: k}
 	}
 	for _, f := range formats {
 		var kvs []*KeyValue
